@@ -88,6 +88,8 @@ def gen_workload(tape, *, max_funcs=5, max_size=3, allow_gen=True, allow_tuple=T
         n_out = 2 if allow_tuple and tape.coin(0.2, "tuple-out") else 1
         outs = [f"o{k}"] if n_out == 1 else [f"o{k}a", f"o{k}b"]
         fd["outputs"] = outs
+        if n_out == 1 and kind != "gen" and tape.coin(0.12, "returns-none"):
+            fd["none_mod"] = 2 + tape.choose(2, "none-mod")
         # extra bound / default parameters
         if allow_defaults and tape.coin(0.15, "bound"):
             b = f"b{counters['b']}"
@@ -148,9 +150,19 @@ def gen_workload(tape, *, max_funcs=5, max_size=3, allow_gen=True, allow_tuple=T
                 arrays[o] = tuple(out_axes)
             else:
                 scalars.append(o)
+    _none_only_for_leaves(funcs)
     w = {"indices": idx_size, "inputs": inputs, "functions": funcs,
          "internal_via": tape.pick(["pipefunc", "map-arg"], "internal-via")}
     return w
+
+
+def _none_only_for_leaves(funcs):
+    """A function may return None only if nobody consumes its output: as an argument None would make the
+    terms of different downstream calls equal, and every exactly-once oracle relies on their injectivity."""
+    used = {p for fd in funcs for p in fd["params"]}
+    for fd in funcs:
+        if fd.get("none_mod") and any(o in used for o in fd["outputs"]):
+            del fd["none_mod"]
 
 
 # ------------------------------------------------------------------ construction
@@ -188,7 +200,7 @@ def build_pipeline(w, *, cached=(), tags=None, **pipeline_kwargs):
     for fd in w["functions"]:
         fn = Fn(fd["name"], fd["params"], defaults=fd.get("sig_defaults") or None,
                 n_out=len(fd["outputs"]), out_shape=fd.get("out_shape"),
-                tag=(tags or {}).get(fd["name"], ""))
+                tag=(tags or {}).get(fd["name"], ""), none_mod=0 if fd.get("out_shape") else fd.get("none_mod", 0))
         out = fd["outputs"][0] if len(fd["outputs"]) == 1 else tuple(fd["outputs"])
         kw = {}
         if fd.get("out_shape") and w.get("internal_via", "pipefunc") == "pipefunc":
@@ -222,6 +234,7 @@ def describe(w):
         "functions": [
             {"f": fd["name"], "params": fd["params"], "out": fd["outputs"], "mapspec": fd["mapspec"],
              **({"out_shape": fd["out_shape"]} if fd.get("out_shape") else {}),
+             **({"returns_none_1_in": fd["none_mod"]} if fd.get("none_mod") else {}),
              **({"bound": fd["bound"]} if fd.get("bound") else {}),
              **({"defaults": {**fd["defaults"], **fd["sig_defaults"]}} if fd.get("defaults") or fd.get("sig_defaults") else {})}
             for fd in w["functions"]
@@ -255,6 +268,8 @@ def gen_dag(tape, *, min_funcs=2, max_funcs=5, allow_tuple=True, allow_defaults=
               "defaults": {}, "bound": {}, "sig_defaults": {}}
         n_out = 2 if allow_tuple and tape.coin(0.2, "tuple-out") else 1
         fd["outputs"] = [f"o{k}"] if n_out == 1 else [f"o{k}a", f"o{k}b"]
+        if n_out == 1 and tape.coin(0.12, "returns-none"):
+            fd["none_mod"] = 2 + tape.choose(2, "none-mod")
         if allow_defaults and tape.coin(0.15, "bound"):
             b = f"b{cb}"
             cb += 1
@@ -269,6 +284,7 @@ def gen_dag(tape, *, min_funcs=2, max_funcs=5, allow_tuple=True, allow_defaults=
             inputs[d] = {"axes": [], "kind": "default", "base": 0, "provided": bool(tape.coin(0.4, "default-provided"))}
         funcs.append(fd)
         values.extend(fd["outputs"])
+    _none_only_for_leaves(funcs)
     return {"indices": {}, "inputs": inputs, "functions": funcs, "internal_via": "pipefunc"}
 
 
